@@ -6,6 +6,9 @@ sys.path.insert(0, os.path.join(ROOT, 'lib'))
 from props import PROPS, NOT_APPLICABLE
 
 ALL = [json.loads(l)['id'] for l in open(os.path.join(ROOT, 'properties.jsonl'))]
+# properties whose check is complete (maintained by hand; builders' in-progress configs are not claimed)
+READY = set(open(os.path.join(ROOT, 'lib', 'ready.txt')).read().split())
+PROPS = {k: v for k, v in PROPS.items() if k in READY}
 checks = []
 for pid in ALL:
     if pid not in PROPS:
